@@ -171,3 +171,57 @@ def func_joint_moment(fam, a, b, c, d, dps=40):
     if d and ((hi is not None and d >= hi) or (lo is not None and d <= lo)):
         raise ValueError("exponential moment does not exist")
     return integral_expect(fam, lambda x: x ** a * mpmath.sin(x) ** b * mpmath.cos(x) ** c * mpmath.exp(d * x), dps)
+
+
+def func_joint_moment_refined(fam, a, b, c, d, dps=50):
+    """
+    E[X^a sin^b X cos^c X exp(dX)] once more, by quadrature over pieces of length pi/2 (the integrand oscillates with frequencies up to b+c)
+    inside a range outside of which the envelope |x|^a exp(dx) f(x) is below 10^-dps.  Returns (value, error estimate) or None when the
+    family has no smooth density on an interval (point masses, Beta, Gamma with shape < 1: integral_expect already removes their singularities).
+    """
+    n = fam[0]
+    if n not in ("normal", "laplace", "exponential", "gamma", "uniform", "truncnormal") or (n == "gamma" and fam[1] < 1):
+        return None
+    lo_d, hi_d = mgf_domain(fam)
+    if d and ((hi_d is not None and d >= hi_d) or (lo_d is not None and d <= lo_d)):
+        raise ValueError("exponential moment does not exist")
+    old = mpmath.mp.dps
+    mpmath.mp.dps = dps
+    try:
+        f, pts = density(fam)
+        inner = [p_ for p_ in pts if p_ not in (-mpmath.inf, mpmath.inf)]
+        eps = mpmath.mpf(10) ** (-dps)
+
+        def envelope(x):
+            return (1 + abs(x)) ** a * mpmath.exp(d * x) * f(x)
+
+        def cut(start, direction):
+            r = mpmath.mpf(2)
+            while envelope(start + direction * r) > eps and r < 10 ** 7:
+                r *= mpmath.mpf(3) / 2
+            return start + direction * r
+
+        lo = cut(inner[0], -1) if pts[0] == -mpmath.inf else pts[0]
+        hi = cut(inner[-1], 1) if pts[-1] == mpmath.inf else pts[-1]
+        h = mpmath.pi / 2
+        grid = set(inner)
+        x = lo
+        while x < hi:
+            grid.add(x)
+            x += h
+        grid.add(hi)
+        grid = sorted(g_ for g_ in grid if lo <= g_ <= hi)
+
+        def fn(x):
+            return x ** a * mpmath.sin(x) ** b * mpmath.cos(x) ** c * mpmath.exp(d * x) * f(x)
+
+        total = mpmath.mpf(0)
+        err = mpmath.mpf(0)
+        for x0, x1 in zip(grid, grid[1:]):
+            v, e = mpmath.quad(fn, [x0, x1], error=True, maxdegree=8)
+            total += v
+            err += e
+        # what lies outside the cut is bounded by a few times eps (the envelope decays at least exponentially there)
+        return total, err + 100 * eps
+    finally:
+        mpmath.mp.dps = old
